@@ -35,6 +35,7 @@ func main() {
 		os.Exit(2)
 	}
 	debug.SetGCPercent(400)
+	debug.SetMaxStack(256 << 20)
 	// address-space cap: a runaway allocation kills this process, not the box
 	var lim syscall.Rlimit
 	if syscall.Getrlimit(syscall.RLIMIT_AS, &lim) == nil {
@@ -150,6 +151,21 @@ func processBaseline() {
 	}
 }
 
+// emit streams one event line to stdout while a scenario runs: operation
+// starts, operation results and invariant violations. If the process dies
+// (a Go stack overflow is not recoverable) the driver still knows what had
+// happened up to that point - in particular which modules had been altered
+// by whom, and which operations were in flight.
+func emit(kind string, v any) {
+	js, err := json.Marshal(v)
+	if err != nil {
+		return
+	}
+	os.Stdout.Write([]byte(`{"ev":"` + kind + `","d":`))
+	os.Stdout.Write(js)
+	os.Stdout.Write([]byte("}\n"))
+}
+
 func hashBytes(b []byte) string {
 	s := sha256.Sum256(b)
 	return hex.EncodeToString(s[:12])
@@ -240,6 +256,7 @@ func (w *world) addViolation(v proto.Violation) int {
 	}
 	w.violCount[v.Class]++
 	w.viol = append(w.viol, v)
+	emit("viol", v)
 	return len(w.viol) - 1
 }
 
@@ -397,11 +414,15 @@ func runScenario(sc *proto.Scenario, nSites int) (res *proto.Result) {
 				t.BeginOp(oi, op.StepLimit)
 				st.started = true
 				st.res = proto.OpResult{Task: ti, Op: oi, Kind: op.Kind, Start: simrt.Steps}
+				emit("start", proto.Ref{Task: ti, Op: oi})
 				w.execOp(ti, oi, op, st)
 				st.res.Steps = t.OpSteps
 				st.res.End = simrt.Steps
 				st.res.Done = true
 				st.done = true
+				ev := st.res
+				ev.Dump = nil
+				emit("op", ev)
 			}
 		})
 	}
